@@ -188,7 +188,7 @@ def work(shard, res, tier, seed):
         if not rowlib.aligned(case, out):
             continue
         rows = out["rows"]
-        if any(isinstance(r.get("issue"), str) and "timeout" in r["issue"].lower() for r in rows):
+        if any(rowlib.tainted(r) for r in rows):
             continue
         base_v = (rows[0].get("solved"), rows[0].get("solved_by"))
         for pos in range(1, len(rows)):
@@ -266,7 +266,7 @@ def family_part(fam, rng, res, cfg):
         b, g = rows[k], rows[pos]
         base_v, got_v = (b.get("solved"), b.get("solved_by")), (g.get("solved"), g.get("solved_by"))
         det = [v for v in (base_v, got_v) if v[0] and v[1] in ("input-balanced", "rule-based")]
-        if not det or any(isinstance(r.get("issue"), str) and "timeout" in r["issue"].lower() for r in (b, g)):
+        if not det or any(rowlib.tainted(r) for r in (b, g)):
             continue
         res.ev()
         res.count("family_variants_evaluated")
